@@ -235,6 +235,9 @@ void register_rules()
    R( "ascii", pegtl::ascii, range< 'm', 'm' > );
    R( "ascii", pegtl::ascii, not_range< 'm', 'm' > );
    R( "ascii", pegtl::ascii, not_range< '\n', '\n' > );
+   // empty value lists select the empty-pack specialisations of internal::one ( one<> never matches, not_one<> is any )
+   R( "ascii", pegtl::ascii, one<> );
+   R( "ascii", pegtl::ascii, not_one<> );
 
    // ---- strings (exact and case-insensitive)
    R( "string", pegtl::ascii, string< 'a', 'Z', '9', '_' > );
@@ -257,6 +260,8 @@ void register_rules()
    R( "utf8", pegtl::utf8, ranges< 0x00, 0x7F, 0x10000, 0x10FFFF, 0xFEFF > );
    R( "utf8", pegtl::utf8, range< 0x20AC, 0x20AC > );
    R( "utf8", pegtl::utf8, not_range< 0x20AC, 0x20AC > );
+   R( "utf8", pegtl::utf8, one<> );
+   R( "utf8", pegtl::utf8, not_one<> );
 
    // ---- UTF-16
    R( "utf16be", pegtl::utf16_be, any );
@@ -268,6 +273,7 @@ void register_rules()
    R( "utf16be", pegtl::utf16_be, ranges< 0x00, 0x7F, 0x10000, 0x103FF, 0xFEFF > );
    R( "utf16be", pegtl::utf16_be, range< 0x10000, 0x10000 > );
    R( "utf16be", pegtl::utf16_be, not_range< 0x1F600, 0x1F600 > );
+   R( "utf16be", pegtl::utf16_be, not_one<> );
    R( "utf16le", pegtl::utf16_le, any );
    R( "utf16le", pegtl::utf16_le, bom );
    R( "utf16le", pegtl::utf16_le, one< 0x41, 0xFFFF, 0x10000, 0x1F600, 0x10FFFF, 0xD7FF, 0xE000 > );
@@ -293,6 +299,8 @@ void register_rules()
    R( "utf32le", pegtl::utf32_le, ranges< 0x00, 0x7F, 0x10000, 0x103FF, 0xFEFF > );
    R( "utf32le", pegtl::utf32_le, range< 0x41, 0x41 > );
    R( "utf32le", pegtl::utf32_le, not_range< 0x10FFFF, 0x10FFFF > );
+   R( "utf32le", pegtl::utf32_le, one<> );
+   R( "utf32le", pegtl::utf32_le, not_one<> );
 
    // ---- uint8 (all masks used below are also exercised with every byte value)
    R( "uint8", pegtl::uint8, any );
@@ -316,6 +324,9 @@ void register_rules()
    R( "uint8", pegtl::uint8, not_range< 0x80, 0x80 > );
    R( "uint8", pegtl::uint8, mask_range< 0x0F, 0x05, 0x05 > );
    R( "uint8", pegtl::uint8, mask_not_range< 0x0F, 0x05, 0x05 > );
+   R( "uint8", pegtl::uint8, one<> );
+   R( "uint8", pegtl::uint8, not_one<> );
+   R( "uint8", pegtl::uint8, mask_not_one< 0x0F > );
 
    add_all_masks< 0 >();
 
@@ -334,6 +345,8 @@ void register_rules()
    R( "uint16be", pegtl::uint16_be, mask_ranges< 0x8001, 0x0000, 0x0001, 0x8001 > );
    R( "uint16be", pegtl::uint16_be, not_range< 0x1234, 0x1234 > );
    R( "uint16be", pegtl::uint16_be, mask_not_range< 0xFF00, 0x1200, 0x1200 > );
+   R( "uint16be", pegtl::uint16_be, one<> );
+   R( "uint16be", pegtl::uint16_be, not_one<> );
    R( "uint16le", pegtl::uint16_le, any );
    R( "uint16le", pegtl::uint16_le, one< 0x0000, 0x00FF, 0x0100, 0x7FFF, 0x8000, 0xFF00, 0xFFFF, 0x1234 > );
    R( "uint16le", pegtl::uint16_le, not_one< 0x0A0D, 0x8000 > );
